@@ -266,7 +266,7 @@ func (k *Walker) onePathArg(cmd string) (string, string) {
 	sn := k.W.State()
 	if k.chance(k.Hostile) {
 		if k.Escape && k.chance(50) {
-			return pickS(k.R, []string{".goit", ".goit/HEAD", ".goit/index", "../x", "..", "/etc/hostname", "", ".goit/objects", "./.goit/config", "a/../../b"}), "hostile"
+			return pickS(k.R, []string{".goit", ".goit/HEAD", ".goit/index", "../x", "..", "/etc/hostname", "", ".goit/objects", "./.goit/config", "a/../../b", ".", ".", "./"}), "hostile"
 		}
 		k.invalid = "unknown-path"
 		return k.unknownPath(), "unknown"
